@@ -3,6 +3,8 @@ import Acv.Model.PipelineChecks
 import Acv.Model.Report
 import Acv.Model.Cli
 import Acv.Gen.Cli
+import Acv.Model.Peg
+import Acv.Gen.PathGrammar
 import Acv.Gen.Pipeline
 /-! protocol operations: one JSON case in, one JSON line out -/
 namespace Acv.Driver
@@ -121,6 +123,16 @@ def opCli (j : Json) : R Json := do
     ("stdout", Json.str (String.ofList run.stdout)),
     ("file", match run.file with | .absent => Json.null | .content bs => Json.str (String.ofList bs))]
 
+/-- c16: the path parser model (generic PEG interpreter over the regenerated table) on one string -/
+def opC16 (j : Json) : R Json := do
+  let text ← fldStr j "text"
+  let result :=
+    if text.isEmpty then "null"        -- ParsePath: the empty string is the null path
+    else match parsePath Gen.pathGrammarGo text.toList with
+      | some p => String.ofList (dumpPath p)
+      | none => "REJECT"
+  return Json.mkObj [("result", Json.str result)]
+
 def runOp (j : Json) : R Json := do
   match ← fldStr j "op" with
   | "c01" => opC01 j
@@ -128,6 +140,7 @@ def runOp (j : Json) : R Json := do
   | "pipe" => opPipe j
   | "c03" => opC03 j
   | "cli" => opCli j
+  | "c16" => opC16 j
   | op => throw s!"unknown op {op}"
 
 def handleLine (line : String) : String :=
